@@ -670,7 +670,7 @@ PROPS = {
         "module": "DnsModel.Theorems.C03",
         "theorems": ["Dns.C03.accepted_layout", "Dns.C03.walks_faithful", "Dns.C03.no_opt_outside_additional", "Dns.C03.question_walk",
                      "Dns.C03.accessors", "Dns.C03.ip_accessor", "Dns.C03.data_accessor", "Dns.C03.layout_full",
-                     "Dns.C03.edns_walk", "Dns.C03.current_section"],
+                     "Dns.C03.edns_walk", "Dns.C03.current_section", "Dns.C03.source_reader_tie"],
         "families": [{"name": "script-mixed-steps", "quick": 0, "thorough": 0, "fixed": True}, {"name": "iter-boundary", "quick": 0, "thorough": 0, "fixed": True}, {"name": "iter", "quick": 3000, "thorough": 150000}, {"name": "iter-damaged", "quick": 3000, "thorough": 100000}],
         "oracle": oracle_c03x,
         "nontrivial": nontrivial_accepted,
@@ -696,7 +696,7 @@ PROPS = {
     "C05": {
         "module": "DnsModel.Theorems.C05",
         "theorems": ["Dns.C05.uncompress_canonical", "Dns.C05.output_layout", "Dns.C05.decompress_ok", "Dns.C05.decompressed_accepted",
-                     "Dns.C05.decompress_fixed_point", "Dns.C05.layout_unique", "Dns.C05.uncompress_any", "Dns.C05.boundaries"],
+                     "Dns.C05.decompress_fixed_point", "Dns.C05.layout_unique", "Dns.C05.uncompress_any", "Dns.C05.boundaries", "Dns.C05.source_reader_tie"],
         "families": [{"name": "uncompress-boundary", "quick": 0, "thorough": 0, "fixed": True}, {"name": "uncompress", "quick": 700, "thorough": 40000}],
         "oracle": oracle_c05,
         "nontrivial": lambda c, a: a.startswith("ok"),
@@ -708,7 +708,7 @@ PROPS = {
     },
     "C06": {
         "module": "DnsModel.Theorems.C06",
-        "theorems": ["Dns.C06.compress_spec", "Dns.C06.decompressed_pointerFree", "Dns.C06.compress_decompressed", "Dns.C06.roundtrip"],
+        "theorems": ["Dns.C06.compress_spec", "Dns.C06.decompressed_pointerFree", "Dns.C06.compress_decompressed", "Dns.C06.roundtrip", "Dns.C06.source_reader_tie"],
         "families": [{"name": "compress-families", "quick": 0, "thorough": 0, "fixed": True}, {"name": "compress", "quick": 2500, "thorough": 150000}],
         "oracle": oracle_c06,
         "nontrivial": lambda c, a: a.startswith("ok"),
@@ -720,7 +720,7 @@ PROPS = {
     },
     "C07": {
         "module": "DnsModel.Theorems.C07",
-        "theorems": ["Dns.C07.rename_spec", "Dns.C07.rename_self", "Dns.replaceRaw_spec", "Dns.rename_record"],
+        "theorems": ["Dns.C07.rename_spec", "Dns.C07.rename_self", "Dns.replaceRaw_spec", "Dns.rename_record", "Dns.C07.source_reader_tie"],
         "families": [{"name": "rename-families", "quick": 0, "thorough": 0, "fixed": True}, {"name": "rename-misaligned", "quick": 0, "thorough": 0, "fixed": True}, {"name": "rename-script", "quick": 0, "thorough": 0, "fixed": True}, {"name": "rename-boundary", "quick": 0, "thorough": 0, "fixed": True}, {"name": "rename", "quick": 1500, "thorough": 75000}],
         "oracle": oracle_c07x,
         "nontrivial": lambda c, a: a.startswith("ok") or a.startswith("err"),
